@@ -7,7 +7,7 @@ from engine.cfg import cond_holds
 from engine.effects import store_field, walk_stmts
 from engine.facts import calls_in, stores_in
 from engine.hierarchy import PARAMETER
-from engine.loader import norm
+from engine.loader import AnalysisError, norm
 
 P = "param.parameterized."
 
@@ -46,6 +46,10 @@ def run(ctx):
                       "directly or through a local alias (shared with R13.f)", floor=1)
     ctx.rule("R12.m", "setter model: Parameter.__set__ interpreted abstractly on every combination (576) of route x constant/readonly x validation outcome x identity x reference mode x watchers x batching agrees with the specification of this property (see checks/setter_model.py)", floor=1)
     ctx.rule("R12.k", "constructor model: Parameters._setup_params (with _instantiate_param) interpreted abstractly on 288 combinations of keywords x reference modes (plain value / reference with a value / reference without a value yet / asynchronous reference) x an unknown keyword: own copy of every instantiate=True default and pinned constants before any keyword is applied (and still there when a keyword assigns nothing), exactly the specified assignments, every reference and only references recorded", floor=1)
+    ctx.rule("R12.u2", "update model (shared with R05.m): the transient Event mode that Parameters._update switches for the keys it assigns is switched on the instance's OWN Parameter objects "
+                       "(`self_[name]`), never on the class-level ones shared with the other instances", floor=1)
+    ctx.rule("R12.h", "a shared (instantiate=False) default is not mutated from a constructor: in numbergen's _initialize_random_state every path to the in-place seeding of "
+                      "self.random_generator passes a rebinding to a fresh private state (path conditions enumerated)", floor=1)
     ctx.rule("R12.i", "instance-copy model: ParameterizedFunction.instance called on an existing instance hands the constructor the source's value of EVERY parameter but its name (one "
                       "equal to the class default included -- the copy owns it and does not follow later class-level changes) plus the overrides", floor=1)
     ctx.rule("R12.s", "per-object state is per object: no class body in param / numbergen binds a mutable container to an attribute that a method mutates in place through self (one list "
@@ -286,6 +290,9 @@ def run(ctx):
     from checks import instcopy_model
     instcopy_model.report(ctx, "R12.p")
     instcopy_model.pf_instance_model(ctx, "R12.i")
+    from checks import update_model
+    update_model.report(ctx, "C12", "R12.u2")
+    private_random_state_before_seeding(ctx, "R12.h")
     from checks import namespace_model
     namespace_model.report(ctx, "R12.q")
 
@@ -350,3 +357,34 @@ def run(ctx):
                                              "per-instance copy, so metadata edits made by the code it runs (bounds, objects, constant, ...) change the class, its subclasses and every other instance" % g.qualname,
                          key="%s::runs-uninitialized" % g.qualname)
     ctx.require(n_y >= 3, "fewer than 3 functions decorated with as_uninitialized found (%d)" % n_y)
+
+
+def private_random_state_before_seeding(ctx, rule):
+    """numbergen.TimeAwareRandomState._initialize_random_state: `random_generator` is an instantiate=False parameter -- its
+    class default is ONE object shared by the class, its subclasses and every instance.  Seeding that object in place
+    (`self.random_generator.seed(...)`) from a constructor changes what all of them draw.  Path conditions (enumerated,
+    engine/pathcond.py): no valuation of the tests of the function reaches the in-place seeding without having passed a
+    rebinding `self.random_generator = <fresh state>` -- in particular none that depends on WHICH object is held."""
+    from engine import pathcond
+    f = ctx.repo.func("numbergen.TimeAwareRandomState._initialize_random_state")
+    cfg = ctx.facts.cfg(f)
+    selfn = f.params[0]
+    rebinds = [n for n in cfg.live_nodes() for t in stores_in(n) if isinstance(t, ast.Attribute) and t.attr == "random_generator" and isinstance(t.value, ast.Name) and t.value.id == selfn]
+    seeds = [n for n in cfg.live_nodes() if n.kind != "br" and n.ast is not None and any(
+        isinstance(c, ast.Call) and isinstance(c.func, ast.Attribute) and c.func.attr in ("seed", "setstate") and norm(c.func.value) == selfn + ".random_generator" for c in ast.walk(n.ast))]
+    ctx.require(rebinds and seeds, "_initialize_random_state no longer rebinds / seeds self.random_generator")
+    atoms = sorted({a for n in cfg.live_nodes() if n.kind == "br" and n.ast is not None for a in pathcond.atoms_in(n.ast)})
+    if len(atoms) > 10:
+        raise AnalysisError("%s: too many path atoms in _initialize_random_state (%d)" % (rule, len(atoms)))
+    rb = {n.id for n in rebinds}
+    state = pathcond.reaching(cfg, atoms, stop=lambda n: n.id in rb, labels={"n", "t", "f"})
+    for sd in seeds:
+        loose = state.get(sd.id, set())
+        if loose:
+            v = sorted(loose)[0]
+            ctx.fail(rule, f, sd, "`%s` can be reached without a private state having been created (path conditions: %s): the object seeded in place is then the class-level default of the "
+                                  "instantiate=False parameter `random_generator` -- shared by the class and all its instances: constructing one object reseeds the stream of the others" % (
+                                      norm(sd.ast)[:60], ", ".join("%s=%s" % (a, x) for a, x in zip(atoms, v))), key=f.qualname + "::seeds-shared-state",
+                     input="class Jitter(UniformRandom): random_generator = random.Random(3); Jitter(seed=1); Jitter(seed=2) share (and reseed) the class-level state")
+            return
+    ctx.ok(rule, f, seeds[0], "every path to the in-place seeding of self.random_generator passes a rebinding to a fresh state (%d atom(s) enumerated)" % len(atoms))
